@@ -32,7 +32,9 @@ CONSTANTS Paths,        \* set of path strings
           Under,        \* set of <<p, q>>: q lies below p (p is a proper leading directory of q)
           Entries,      \* entry strings other than "none"
           KindOf,       \* [Entries -> {"f", "x", "l"}]
-          CleanOnly,    \* TRUE: only clean pre-states (I = H, W = H) are enumerated
+          PreStates,    \* "any": every consistent H, I, W, T;  "clean": only clean pre-states (I = H, W = H);
+                        \* "dirty-full": H = I = T = every path present, W = every file present with either content
+                        \*  (local modifications everywhere: the sparse operations of C30 / C32)
           Ops,          \* operation names (subset of AllOps)
           Cone,         \* C32: [SparseSets -> set of paths inside the cone]; unused elsewhere
           SparseSets    \* C32: names of sparse directory sets
@@ -155,6 +157,15 @@ SparsePost(s) ==
              IF T[p] # None THEN (IF p \in Cone[s] THEN {T[p]} ELSE {None})
              ELSE IF Tracked(p) THEN {None} ELSE {W[p]}]]
 
+\* a keep reset that narrows the sparse set: files leaving the cone are removed from the worktree, so a local
+\* modification on any of them must make the reset refuse (C30); files inside the cone keep their modifications
+SparseKeepPost(s) ==
+  LET must == \E p \in Paths : T[p] # None /\ p \notin Cone[s] /\ W[p] # None /\ W[p] # I[p]
+  IN [verdict |-> IF must THEN "refuse" ELSE "either", head |-> "T",
+      idx |-> Single(T),
+      skip |-> [p \in Paths |-> T[p] # None /\ p \notin Cone[s]],
+      wt  |-> [p \in Paths |-> IF T[p] # None THEN (IF p \in Cone[s] THEN {W[p]} ELSE {None}) ELSE {W[p]}]]
+
 \* ------------------------------------------------------------------ C29: calls that must be refused outright
 \* invalid options, a commit or branch that does not exist, a branch name that is taken: the call returns an
 \* error and nothing at all changes (HEAD, branches, index, files).
@@ -175,11 +186,12 @@ RefOnlyFF == [verdict |-> "either", head |-> "T", idx |-> Single(I), wt |-> Sing
 
 \* ------------------------------------------------------------------ table
 AllOps == {"reset-hard", "checkout-force", "checkout-force-create", "checkout", "checkout-twin", "checkout-create", "reset-merge", "reset-keep",
-           "add", "add-all", "remove", "move", "clean", "commit", "status", "sparse", "pull", "merge-ff"} \cup BadOps \cup HeadOps
+           "add", "add-all", "remove", "move", "clean", "commit", "status", "sparse", "sparse2", "sparse-keep", "pull", "merge-ff"} \cup BadOps \cup HeadOps
 
 Args(o) == CASE o \in {"add", "remove"} -> {<<p>> : p \in Paths}
              [] o = "move" -> {<<pq[1], pq[2]>> : pq \in {x \in Paths \X Paths : x[1] # x[2]}}
-             [] o = "sparse" -> {<<s>> : s \in SparseSets}
+             [] o \in {"sparse", "sparse-keep"} -> {<<s>> : s \in SparseSets}
+             [] o = "sparse2" -> {<<s, s0>> : s \in SparseSets, s0 \in SparseSets}
              [] OTHER -> {<<>>}
 
 \* operations naming a path that is entangled in a directory / file conflict with existing index or
@@ -207,18 +219,27 @@ ExpectRaw(o, a) ==
     [] o = "commit"      -> CommitPost
     [] o = "status"      -> StatusPost
     [] o = "sparse"      -> SparsePost(a[1])
+    [] o = "sparse2"     -> SparsePost(a[1])      \* the same outcome from a worktree that is already sparse (a[2])
+    [] o = "sparse-keep" -> SparseKeepPost(a[1])
 
 Expect(o, a) == IF o \in {"add", "remove", "move"} /\ \E i \in 1..Len(a) : Entangled(a[i])
                 THEN Unspecified(ExpectRaw(o, a)) ELSE ExpectRaw(o, a)
 
 \* pre-states: H, I, T any consistent trees; W any consistent worktree.  Operations that do
 \* not look at T get T = H so that the table has no duplicate rows.
-UsesT(o) == o \in {"reset-hard", "checkout-force", "checkout-force-create", "checkout", "reset-merge", "reset-keep", "sparse", "pull", "merge-ff", "merge-nonff",
+UsesT(o) == o \in {"reset-hard", "checkout-force", "checkout-force-create", "checkout", "reset-merge", "reset-keep", "sparse", "sparse2", "sparse-keep", "pull", "merge-ff", "merge-nonff",
                     "reset-hard-badsparse", "reset-merge-badsparse", "reset-keep-badsparse", "reset-mixed-badsparse", "checkout-branch-and-hash"}
-Init == /\ H \in Trees /\ I \in Trees /\ W \in Trees /\ T \in Trees
-        /\ op \in Ops /\ arg \in Args(op)
-        /\ (~UsesT(op) => T = H)
-        /\ (CleanOnly => (I = H /\ W = H))
+Init == /\ op \in Ops /\ arg \in Args(op)
+        /\ IF PreStates = "dirty-full"
+             THEN /\ H = [p \in Paths |-> "f:b1"] /\ I = H /\ T = H
+                  /\ W \in [Paths -> Entries]
+             ELSE IF op = "sparse2"
+             \* every path tracked, the worktree already narrowed to the cone of arg[2]
+             THEN /\ H = [p \in Paths |-> "f:b1"] /\ I = H /\ T = H
+                  /\ W = [p \in Paths |-> IF p \in Cone[arg[2]] THEN H[p] ELSE None]
+             ELSE /\ H \in Trees /\ I \in Trees /\ W \in Trees /\ T \in Trees
+                  /\ (~UsesT(op) => T = H)
+                  /\ (PreStates = "clean" => (I = H /\ W = H))
         /\ exp = Expect(op, arg)
 Next == UNCHANGED vars
 Spec == Init /\ [][Next]_vars
@@ -249,5 +270,8 @@ StatusCleanIff == op = "status" => \A p \in Paths :
                  (exp.st[p] = <<" ", " ">>) <=> (H[p] = I[p] /\ I[p] = W[p])
 \* every allowed post-tree set is non-empty; allowed trees stay D/F consistent when unique
 BadOptionsChangeNothing == op \in BadOps => exp.verdict = "refuse" /\ exp.idx = Single(I) /\ exp.wt = Single(W) /\ exp.head = "H"
+\* C30 for sparse keep resets: a success never drops a modified file
+SparseKeepLosesNothing == (op = "sparse-keep" /\ exp.verdict # "refuse") =>
+                            \A p \in Paths : (W[p] # None /\ W[p] # I[p]) => exp.wt[p] = {W[p]}
 WellFormed == \A p \in Paths : exp.idx[p] # {} /\ exp.wt[p] # {}
 =============================================================================
